@@ -185,7 +185,7 @@ class NBGen:
         if depth >= 3 or c < 0.45:
             return self.scalar()
         if c < 0.7:
-            return {k: self.value(depth + 1) for k in r.sample(["a", "b", "c", "k", "list", "obj"], r.randrange(0, 4))}
+            return {k: self.value(depth + 1) for k in r.sample(["a", "b", "c", "k", "list", "obj", "2024", "0", "k 1"], r.randrange(0, 4))}
         if c < 0.8:   # list of lists
             return [[self.scalar() for _ in range(r.randrange(0, 3))] for _ in range(r.randrange(0, 3))]
         if c < 0.9:   # list of objects
@@ -229,7 +229,7 @@ class NBGen:
             if r.random() < 0.5:
                 md["language_info"]["codemirror_mode"] = r.choice(["ipython", {"name": "ipython", "version": 3}])
         if self.hostile:
-            for key in r.sample(["x", "y", "z", "widgets"], r.randrange(0, 3)):
+            for key in r.sample(["x", "y", "z", "widgets", "2024", "1"], r.randrange(0, 3)):
                 md[key] = self.value()
         elif r.random() < 0.3:
             md["title"] = "notebook %d" % r.randrange(10)
@@ -240,7 +240,7 @@ class NBGen:
         r = self.rng
         d = {}
         if for_attachment:
-            keys = r.sample(["image/png", "image/jpeg", "image/svg+xml", "text/plain"], r.randrange(1, 3))
+            keys = r.sample(["image/png", "image/jpeg", "image/svg+xml", "text/plain", "application/json", "application/vnd.custom+json"], r.randrange(1, 3))
         else:
             keys = ["text/plain"] if r.random() < 0.85 else []
             keys += r.sample(["text/html", "image/png", "image/svg+xml", "application/json",
